@@ -199,6 +199,16 @@ func runC03(c *ctx) {
 		}
 	}
 
+	// 2d. numbers inside compared containers: equality of members is numeric equality (both zeros, exponent forms)
+	for _, l := range []string{"[0]", "[-0]", "[0 * -1]", "[1e0]", "[1]", "[100e-2]", `{"v": 0}`, `{"v": -0}`, `{"v": 0 * -1}`, "[[0]]", "[[-0]]", "[1, -0, 2]", "[1, 0, 2]", "[1e21]", "[1000000000000000000000]"} {
+		for _, rr := range []string{"[0]", "[-0]", "[1]", `{"v": 0}`, `{"v": -0}`, "[[0]]", "[[-0]]", "[1, 0, 2]", "[1, -0, 2]", "[1e21]"} {
+			for _, op := range []string{"=", "!="} {
+				c.diffEval(l+" "+op+" "+rr, input, "container-number-eq")
+			}
+			c.diffEval(l+" in ["+rr+", [7]]", input, "container-number-eq")
+		}
+	}
+
 	// 3. random nesting up to depth 3
 	n = c.scale(4000, 60000)
 	for i := 0; i < n && !c.tooMany(); i++ {
@@ -218,9 +228,10 @@ func c03Value(r *rng, depth int) interface{} {
 	case 0:
 		return nil
 	case 1:
-		return float64(r.intn(3))
+		// small integers, both zeros, and magnitudes whose text forms are unusual (equality is numeric: -0 = 0)
+		return []float64{0, 1, 2, 0, math.Copysign(0, -1), 1e21, 0.1, 1, 2, -1e-7}[r.intn(10)]
 	case 2:
-		return []string{"", "a", "1"}[r.intn(3)]
+		return []string{"", "a", "1", "é", "\U0001F600"}[r.intn(5)]
 	case 3:
 		return r.chance(1, 2)
 	case 4:
